@@ -22,6 +22,11 @@ PRIORS = {'none': (), 'success': (['valid'],), 'rejected@.5T': (['exc@.5T'],), '
           'rejected+NEWLOOP': (['exc2'], 'NEWLOOP'), 'NEWLOOP+success+NEWLOOP': ('NEWLOOP', ['valid'], 'NEWLOOP')}
 
 
+def letters_of(tr):
+    # (TCP) plus conforming answers that carry another transaction id than the request
+    return alphabet(tr) + (['valid-tx0', 'valid-tx+1'] if tr == 'tcp' else [])
+
+
 def prior_of(name):
     """'1:<letter>': one earlier request whose first transmission is answered by <letter> (any letter of the alphabet),
     later transmissions of it by 'valid'."""
@@ -196,7 +201,7 @@ def run(tier, seed, rep):
     rep.add_many([v for v in _ses.violations if v['prop'] == 'C04'])
     jobs = []
     for cfg in configs(tier):
-        letters = alphabet(cfg['transport'])
+        letters = letters_of(cfg['transport'])
         # rotate the non-default letters by the seed: changes exploration order only, never the set explored
         k = seed % (len(letters) - 1)
         letters = [letters[0]] + letters[1 + k:] + letters[1:1 + k]
@@ -217,7 +222,7 @@ def run(tier, seed, rep):
     # the library's logging at its default level instead of DEBUG (the rest of the exploration runs with DEBUG enabled)
     for tr in ('udp', 'tcp'):
         for ka in (False, True):
-            jobs.append((dict(transport=tr, ka=ka, T=1, R=1, cmd='read', default_logging=True), 'product', 2, alphabet(tr), ['ok'], None))
+            jobs.append((dict(transport=tr, ka=ka, T=1, R=1, cmd='read', default_logging=True), 'product', 2, letters_of(tr), ['ok'], None))
     # non-initial states
     for tr in ('udp', 'tcp'):
         for ka in (False, True):
@@ -227,16 +232,16 @@ def run(tier, seed, rep):
                 if prior == 'none' or (tr == 'udp' and 'connect' in prior):
                     continue
                 cfg = dict(transport=tr, ka=ka, T=1, R=1, cmd='read', prior=prior)
-                jobs.append((cfg, 'product', 2, alphabet(tr), ['ok'], None))
+                jobs.append((cfg, 'product', 2, letters_of(tr), ['ok'], None))
                 if tier == 'thorough':
                     cfg = dict(transport=tr, ka=ka, T=1, R=2, cmd='read', prior=prior)
-                    jobs.append((cfg, 'deviations', 2, alphabet(tr), CONNECT if tr == 'tcp' else ['ok'], None))
+                    jobs.append((cfg, 'deviations', 2, letters_of(tr), CONNECT if tr == 'tcp' else ['ok'], None))
             # every single-letter earlier request (the whole alphabet), then the full product for the explored request
-            for letter in alphabet(tr)[1:]:
+            for letter in letters_of(tr)[1:]:
                 cfg = dict(transport=tr, ka=ka, T=1, R=1, cmd='read', prior='1:' + letter)
-                jobs.append((cfg, 'product', 2, alphabet(tr), ['ok'], None))
+                jobs.append((cfg, 'product', 2, letters_of(tr), ['ok'], None))
                 if any(x in letter for x in ('1.5T', 'T+e', '1.2T', '+fin', 'dup', '2x', 'invalid+')):
-                    jobs.append((dict(cfg, drain=True), 'product', 2, alphabet(tr), ['ok'], None))
+                    jobs.append((dict(cfg, drain=True), 'product', 2, letters_of(tr), ['ok'], None))
     # Modbus/TCP requests whose transmissions cross the wrap of the transaction counter
     for ka in (False, True):
         for start in (0xFFFB, 0xFFFC, 0xFFFD, 0xFFFE):      # (states the counter can really be in)
@@ -250,7 +255,7 @@ def run(tier, seed, rep):
     for tr in ('udp', 'tcp'):
         for ka in (False, True):
             cfg = dict(transport=tr, ka=ka, T=1, R=3, cmd='read')
-            letters = alphabet(tr)
+            letters = letters_of(tr)
             jobs.append((cfg, 'deviations', 3 if tier == 'thorough' else 2, letters,
                          CONNECT if tr == 'tcp' else ['ok'], None))
     if tier == 'thorough':
@@ -258,8 +263,8 @@ def run(tier, seed, rep):
         for tr in ('udp', 'tcp'):
             for ka in (False, True):
                 cfg = dict(transport=tr, ka=ka, T=1, R=3, cmd='read')
-                for first in range(len(alphabet(tr))):
-                    jobs.append((cfg, 'product', 4, alphabet(tr), ['ok'], None, (first,)))
+                for first in range(len(letters_of(tr))):
+                    jobs.append((cfg, 'product', 4, letters_of(tr), ['ok'], None, (first,)))
     total = Stats()
     per_cfg = []
     for j, st in zip(jobs, pmap(job, jobs)):
@@ -301,7 +306,7 @@ def run(tier, seed, rep):
                distinct_outcome_classes=len(total.outcomes), exhaustive=not total.capped,
                bound='product over all choice points (depth R+1 transmissions + connect outcomes) for R<=2; '
                      'deviation bound for R=3', max_depth=total.max_depth,
-               alphabet=dict(udp=alphabet('udp'), tcp=alphabet('tcp'), connect=CONNECT),
+               alphabet=dict(udp=letters_of('udp'), tcp=letters_of('tcp'), connect=CONNECT),
                per_config=per_cfg, samples=total.samples[:6], kernel_conformance=conf,
                explanation='every explored trace is an execution of the real goodwe protocol objects on the real '
                            'CPython selector loop/transports; only sockets, selector and clock are modelled')
